@@ -86,6 +86,12 @@ def run(tier, rng, rep):
         check(x, rep, "mktrend.random")
         if n <= 40:
             symmetries(x.astype("float64"), rep)
+    # int16 series whose pairwise differences exceed the int16 range
+    for _ in range(10 if tier == "quick" else 100):
+        n = int(rng.integers(4, 40))
+        x = np.where(np.arange(n) < n // 2, -16000, 16500).astype("int16") + rng.integers(-400, 400, n).astype("int16")
+        check(x, rep, "mktrend.widerange")
+        check(x[::-1].copy(), rep, "mktrend.widerange")
     # nodata handling
     for n in (2, 5, 9):
         x = np.full(n, -9999, dtype="int16")
